@@ -16,6 +16,12 @@ CLAIMED = {
  "C04": ("§7 C04", "Every output the real Writers produce for the C01 alphabet is judged only by independent decoders (strict binary validator / text grammar parser + symbol context machine), and every integer codec is enumerated over 0..2^16 and all 2^k±2 with length-function/bytes agreement.",
          "Trusts refbin, reftext and refsym; ion-go's Reader is never consulted.",
          "exhaustive enumeration of writer inputs and codec arguments on the implementation, outputs validated by an independent reference decoder"),
+ "C09": ("§7 C09", "Every import list (each table adjusted to every max_id) x every local symbol list of a small alphabet, built three ways (constructor, Reader with catalogs incl. placeholders, builder under every Add sequence), with a complete query sweep (every ID 0..MaxID+2, every text) compared with a reference slot list; earlier answers re-asked after every Add.",
+         "Trusts refsym's 40-line slot list; tables larger than the pool and more imports than the bound are not covered.",
+         "explicit enumeration of configurations and operation sequences on the implementation vs a reference model, step by step"),
+ "C10": ("§7 C10", "Every stream that interleaves version markers, replacing/appending/importing symbol tables (all max_id cases) and user values referencing boundary SIDs, up to L events, under five catalogs, in text and binary, is read by the real Reader and compared value-by-value (text, unknown-text SIDs, MaxID at each value, error placement) with the reference context machine.",
+         "Trusts refsym/refbin/reftext; longer histories and other import shapes are not covered.",
+         "explicit enumeration of event histories up to a depth replayed on the implementation, lock-step with a reference state machine"),
  "C12": ("§7 C12", "Every Writer call sequence up to length L over a 14-call alphabet (legal and illegal), in four writer configurations, is executed on the real Writers: no panic, errors are sticky, output is deterministic, and whenever the final Finish returns nil the bytes are valid under an independent decoder and equal the stream a reference automaton builds from the successful calls. The whole sequence space below the bound is covered.",
          "Trusts the refwriter automaton and the independent decoders; sequences longer than L and calls outside the alphabet are not covered.",
          "explicit enumeration of all operation sequences up to a depth on the implementation, lock-step with a reference protocol automaton"),
